@@ -33,34 +33,47 @@ def run_huge(case):
     BA = CTX.lib.BitArray
     b, n, w = case["b"], case["n"], case["w"]
     tags = ["b:%d" % b, "huge", "w:mid"]
-    vals = ((np.arange(n, dtype=np.uint64) * np.uint64(2654435761)) >> np.uint64(7)) % np.uint64(2 ** b)
-    arr = vals.astype(case.get("dtype", "uint32"))
+    small = np.uint8 if b <= 8 else (np.uint16 if b <= 16 else np.uint32)
+    vals = (((np.arange(n, dtype=np.uint32) * np.uint32(40503)) >> np.uint32(5)) % np.uint32(2 ** b if b < 32 else 2 ** 31)).astype(small)      # (memory: the narrowest type that holds b bits)
+    arr = vals if case.get("dtype") is None else vals.astype(case["dtype"])
     p = attempt(BA.pack, arr, b)
     if not p.ok:
         return violated("BitArray.pack of %d values (b=%d) raised %r" % (n, b, p), tags)
     ba = p.value
     CTX.tick("c13:unpack")
     u = attempt(lambda: np.asarray(ba.unpack()))
-    if not u.ok or u.value.shape != (n,) or not np.array_equal(u.value.astype(np.uint64), vals):
-        k = int(np.flatnonzero(u.value.astype(np.uint64) != vals)[0]) if u.ok and u.value.shape == (n,) else -1
+    if not u.ok or u.value.shape != (n,) or not np.array_equal(u.value, vals):
+        k = int(np.flatnonzero(u.value != vals)[0]) if u.ok and u.value.shape == (n,) else -1
         return violated("unpack() of %d packed values (b=%d) differs from the input%s" % (n, b, " first at position %d" % k if k >= 0 else ": %r" % (u,)), tags + ["obs:u"])
     CTX.tick("c13:window", True)
-    exp = np.zeros(n - w + 1, dtype=np.uint64)
-    for j in range(w):
-        exp |= vals[j:n - w + 1 + j] << np.uint64(b * j)
+    u = None
     o = attempt(lambda: np.asarray(ba.sliding_window(w)))
-    if not o.ok or o.value.shape != exp.shape or not np.array_equal(o.value.astype(np.uint64), exp):
-        k = int(np.flatnonzero(o.value.astype(np.uint64) != exp)[0]) if o.ok and o.value.shape == exp.shape else -1
+    k = -1
+    if o.ok and o.value.shape == (n - w + 1,):
+        # compared block by block (a few million windows at a time keep the oracle's memory small)
+        B = 1 << 21
+        for s0 in range(0, n - w + 1, B):
+            e0 = min(n - w + 1, s0 + B)
+            exp = np.zeros(e0 - s0, dtype=np.uint64)
+            for j in range(w):
+                exp |= vals[s0 + j:e0 + j].astype(np.uint64) << np.uint64(b * j)
+            bad_ = np.flatnonzero(o.value[s0:e0].astype(np.uint64) != exp)
+            if len(bad_):
+                k = s0 + int(bad_[0])
+                exp = {k: int(exp[bad_[0]])}
+                break
+    if not o.ok or o.value.shape != (n - w + 1,) or k >= 0:
         return violated("sliding_window(%d) over %d packed values (b=%d): %s" % (w, n, b, ("first wrong window at position %d: %#x, expected %#x" % (k, int(o.value[k]), int(exp[k]))) if k >= 0 else repr(o)[:200]),
                         tags + ["obs:w"])
     CTX.tick("c13:getint")
-    for q in (0, n - 1, 2 ** 22 - 1, 2 ** 22, 2 ** 22 + 1, n // 2):
+    o = None
+    for q in (0, n - 1, 2 ** 22 - 1, 2 ** 22, 2 ** 22 + 1, n // 2, 2 ** 24 - 1, 2 ** 24, 12500000, 12500031):
         if q < n:
             g = attempt(lambda: int(ba[q]))
             if not g.ok or g.value != int(vals[q]):
                 return violated("packed[%d] of %d values gives %s, expected %d" % (q, n, repr(g) if not g.ok else g.value, int(vals[q])), tags + ["obs:i"])
     CTX.tick("c13:getlist", True)
-    pos = [2 ** 22 - 2, 2 ** 22 - 1, 2 ** 22, 2 ** 22 + 1, 5, n - 1]
+    pos = [2 ** 22 - 2, n - 3, 2 ** 22 - 1, 17, 2 ** 22, n // 2, 2 ** 22 + 1, 42, 5, n // 3, n - 1, 2 ** 24 + 3, 12500001]      # (not sorted, and its sorting permutation is not its own inverse)
     pos = [q for q in pos if q < n]
     g = attempt(lambda: np.asarray(ba[pos].unpack()).tolist())
     if not g.ok or g.value != [int(vals[q]) for q in pos]:
@@ -243,7 +256,7 @@ def sweep(tier):
 
 
 def huge_cases():
-    for b, w, n in ((8, 3, 2 ** 22 + 100), (2, 5, 2 ** 22 + 37), (16, 4, 2 ** 22 + 3), (8, 8, 2 ** 23 + 9)):
+    for b, w, n in ((8, 3, 2 ** 22 + 100), (2, 5, 2 ** 22 + 37), (16, 4, 2 ** 22 + 3), (8, 8, 2 ** 23 + 9), (8, 5, 2 ** 24 + 40), (32, 2, 9000000), (1, 33, 13000001), (4, 9, 2 ** 24 + 2 ** 22 + 5)):
         yield {"huge": True, "b": b, "w": w, "n": n}
 
 
